@@ -13,15 +13,27 @@
  *       bare:   NO handle; w cb_wake, r cb_read, c cb_close, l cb_clear, x cb_exit, t cb_timer of
  *               the muggle_event_loop_t itself; <nctx> socketpair-backed contexts are registered
  *               by T0 right after creation; script letter h is executed as a plain wake-up
+ *   cbw <s0> <s1> ...       optional (handle attached, cb_wake installed): the j-th invocation of the
+ *                           user's wake callback executes script sj ("-" = empty) on the loop thread
+ *   cbt <s0> <s1> ...       the same for the user's timer callback (needs tmo 1 and cb_timer)
+ *   tmo <0|1>               1 = timer interval 0 (poll/select/epoll_wait do not block; every iteration
+ *                           ends with the timer callback and the exit test); default: -1, no timer
+ *   del <0|1>               1 = the loop thread deletes the handle and the loop as soon as
+ *                           muggle_evloop_run has returned, without waiting for the other threads
  *   budget <steps>          optional (default 20000)
  *   sched <spec>            see vsched.h
  * Thread T0 CREATES the loop (muggle_evloop_new records T0 in evloop->tid), attaches a
  * socket_evloop_handle, then starts the other threads.  Every thread executes its script
  *   w = muggle_evloop_wakeup         h = hand-over of a socketpair-backed context
  *   x = muggle_evloop_exit             (muggle_socket_evloop_add_ctx)
+ *   s = muggle_socket_ctx_shutdown of the first context of evloop->ctx_list that is not flagged
+ *       CLOSED and has not been freed (nothing when there is none; bare loop: plain wake-up)
+ *   d = the peer of the first such context whose peer is still open sends one byte
+ *   c = the peer of the first such context whose peer is still open closes
  * with a harness scheduling point ("plain op") before every operation and after the last
  * one; the loop thread then calls muggle_evloop_run().  Peers of handed-over sockets stay
- * silent, so the only descriptor that ever becomes readable is the loop's signal.
+ * silent, so the only descriptors that ever become readable are the loop's signal and the
+ * sockets that have been shut down (readable + hung up).
  * Output: the event trace (callbacks note themselves with R lines), then
  *   F returned=<0|1> live=<contexts never freed> late=<contexts still queued after run()>
  */
@@ -51,6 +63,14 @@ static int bare_peer[8];
 static int peers[MAXCTX];
 static muggle_socket_context_t *ctxs[MAXCTX];
 static int freed[MAXCTX];
+#define MAXCB 8
+static char cbw[MAXCB][16], cbt[MAXCB][16];
+static int ncbw, ncbt, wk_n, tm_n, tmo, del, loop_deleted;
+/* addresses of freed contexts are never handed out again during a case: a node that the clear
+ * pass leaves in ctx_list (pointing to a freed context) can then never be mistaken for a live
+ * context when a script looks for a registered context to shut down */
+static void *dead[MAXCTX]; static int ndead;
+static void *aside[4 * MAXCTX]; static int naside;
 
 static int ctx_id(muggle_socket_context_t *ctx) { return (int)(intptr_t)muggle_socket_ctx_get_data(ctx); }
 
@@ -75,10 +95,67 @@ static void cb_close(muggle_event_loop_t *ev, muggle_socket_context_t *ctx)
 	(void)ev;
 	vs_note("close %d", ctx_id(ctx));
 }
+/* the first context of evloop->ctx_list that is alive and not flagged CLOSED (and, for the peer
+ * operations, whose peer is still open); never looks at a loop that has been deleted */
+static int pick_ctx(int need_peer)
+{
+	if (loop_deleted || !evloop) return -1;
+	muggle_linked_list_node_t *n = muggle_linked_list_first(evloop->ctx_list);
+	for (; n; n = muggle_linked_list_next(evloop->ctx_list, n)) {
+		for (int id = 0; id < g_nctx && id < MAXCTX; id++) {
+			if (!ctxs[id] || (void *)ctxs[id] != n->data || freed[id]) continue;
+			if (ctxs[id]->base.flags & MUGGLE_EV_CTX_FLAG_CLOSED) continue;
+			if (need_peer && peers[id] < 0) continue;
+			return id;
+		}
+	}
+	return -1;
+}
+static void handover(void);
+/* one script operation (thread script or callback script) */
+static void do_op(char op, int k)
+{
+	switch (op) {
+	case 'w': vs_note("op w %d", k); muggle_evloop_wakeup(evloop); break;
+	case 'h':
+		if (bare) { vs_note("op w %d", k); muggle_evloop_wakeup(evloop); }
+		else handover();
+		break;
+	case 'x': vs_note("op x %d", k); muggle_evloop_exit(evloop); break;
+	case 's': case 'd': case 'c':
+		if (bare) { vs_note("op w %d", k); muggle_evloop_wakeup(evloop); break; }
+		{
+			int id = pick_ctx(op != 's');
+			if (id >= 0 && op == 's') muggle_socket_ctx_shutdown(ctxs[id]);
+			if (id >= 0 && op == 'd') { if (send(peers[id], "x", 1, MSG_NOSIGNAL) != 1) vs_note("peer send failed"); }
+			if (id >= 0 && op == 'c') { close(peers[id]); peers[id] = -1; }
+			vs_note("op %c %d", op, id);
+		}
+		break;
+	default: break;
+	}
+	vs_note("done %d", k);
+}
+static void run_cb_script(const char *sc)
+{
+	for (int k = 0; sc[k]; k++) {
+		vs_yield_point("op");
+		do_op(sc[k], k);
+	}
+}
 static void cb_wake(muggle_event_loop_t *ev)
 {
 	(void)ev;
 	vs_note("wake");
+	int j = wk_n++;
+	if (j < ncbw) run_cb_script(cbw[j]);
+}
+static void cb_timer(muggle_event_loop_t *ev)
+{
+	(void)ev;
+	vs_note("timer");
+	int j = tm_n++;
+	if (j < ncbt) run_cb_script(cbt[j]);
 }
 static void cb_free(void *pool, muggle_socket_context_t *ctx)
 {
@@ -86,13 +163,20 @@ static void cb_free(void *pool, muggle_socket_context_t *ctx)
 	int id = ctx_id(ctx);
 	vs_note("free %d", id);
 	if (id >= 0 && id < MAXCTX) freed[id]++;
+	if (ndead < MAXCTX) dead[ndead++] = ctx;
 	g_live--;
 	free(ctx);
 }
 static muggle_socket_context_t *cb_alloc(void *pool)
 {
 	(void)pool;
-	return (muggle_socket_context_t *)malloc(sizeof(muggle_socket_context_t));
+	for (;;) {
+		void *p = malloc(sizeof(muggle_socket_context_t));
+		int reused = 0;
+		for (int i = 0; p && i < ndead; i++) if (dead[i] == p) reused = 1;
+		if (!reused || naside >= 4 * MAXCTX) return (muggle_socket_context_t *)p;
+		aside[naside++] = p;
+	}
 }
 
 /* callbacks of a bare loop */
@@ -135,6 +219,7 @@ static void create_all(void)
 		if (HAS('l')) muggle_evloop_set_cb_clear(evloop, bare_clear);
 		if (HAS('x')) muggle_evloop_set_cb_exit(evloop, bare_exit);
 		if (HAS('t')) muggle_evloop_set_cb_timer(evloop, any_timer);
+		if (tmo) muggle_evloop_set_timer_interval(evloop, 0);
 		for (int i = 0; i < bare_nctx; i++) {
 			int sv[2] = { -1, -1 };
 			if (socketpair(AF_UNIX, SOCK_STREAM, 0, sv) != 0) { vs_note("socketpair failed"); break; }
@@ -150,7 +235,8 @@ static void create_all(void)
 		if (HAS('c')) muggle_socket_evloop_handle_set_cb_close(&handle, cb_close);
 		if (HAS('w')) muggle_socket_evloop_handle_set_cb_wake(&handle, cb_wake);
 		if (HAS('m')) muggle_socket_evloop_handle_set_cb_msg(&handle, cb_msg);
-		if (HAS('t')) muggle_socket_evloop_handle_set_cb_timer(&handle, any_timer);
+		if (HAS('t')) muggle_socket_evloop_handle_set_cb_timer(&handle, cb_timer);
+		if (tmo) muggle_socket_evloop_handle_set_timer_interval(&handle, 0);
 		muggle_socket_evloop_handle_set_alloc_free(&handle, NULL, cb_alloc, cb_free);
 		muggle_socket_evloop_handle_attach(&handle, evloop);
 		vs_name(&handle.mtx->mtx, "hmtx");
@@ -183,22 +269,19 @@ static void thread_body(void *arg)
 	const char *s = scripts[t];
 	for (int k = 0; s[k]; k++) {
 		vs_yield_point("op");
-		switch (s[k]) {
-		case 'w': vs_note("op w %d", k); muggle_evloop_wakeup(evloop); break;
-		case 'h':
-			if (bare) { vs_note("op w %d", k); muggle_evloop_wakeup(evloop); }
-			else handover();
-			break;
-		case 'x': vs_note("op x %d", k); muggle_evloop_exit(evloop); break;
-		default: break;
-		}
-		vs_note("done %d", k);
+		do_op(s[k], k);
 	}
 	vs_yield_point("op");
 	if (t == loopthr) {
 		muggle_evloop_run(evloop);
 		g_returned = 1;
 		vs_note("returned");
+		if (del) {
+			/* the owner deletes the loop at once; the other threads still hold the pointer */
+			loop_deleted = 1;
+			if (!bare) muggle_socket_evloop_handle_destroy(&handle);
+			muggle_evloop_delete(evloop);
+		}
 	}
 }
 
@@ -207,6 +290,7 @@ static void case_begin(void)
 	strcpy(sched, "rand 1 50 0 0");
 	be_name[0] = 0; nthr = 0; loopthr = 0; hints = 8; budget = 20000;
 	bare = 0; bare_nctx = 0; strcpy(cbflags, "warcmt");
+	ncbw = ncbt = 0; memset(cbw, 0, sizeof(cbw)); memset(cbt, 0, sizeof(cbt)); tmo = 0; del = 0;
 	memset(scripts, 0, sizeof(scripts));
 }
 
@@ -235,6 +319,19 @@ static void case_line(char *line)
 		if (strcmp(fl, "-") == 0) fl[0] = 0;
 		snprintf(cbflags, sizeof(cbflags), "%s", fl);
 		bare_nctx = bare ? (n < 0 ? 0 : n > 8 ? 8 : n) : 0;
+	} else if (strcmp(op, "cbw") == 0 || strcmp(op, "cbt") == 0) {
+		int isw = strcmp(op, "cbw") == 0, n = 0;
+		char *save = NULL;
+		for (char *tok = strtok_r(line + 3, " \t", &save); tok; tok = strtok_r(NULL, " \t", &save)) {
+			if (n >= MAXCB) break;
+			snprintf(isw ? cbw[n] : cbt[n], 16, "%s", strcmp(tok, "-") == 0 ? "" : tok);
+			n++;
+		}
+		if (isw) ncbw = n; else ncbt = n;
+	} else if (strcmp(op, "tmo") == 0) {
+		sscanf(line, "%*s %d", &tmo);
+	} else if (strcmp(op, "del") == 0) {
+		sscanf(line, "%*s %d", &del);
 	} else if (strcmp(op, "budget") == 0) {
 		sscanf(line, "%*s %ld", &budget);
 	}
@@ -249,13 +346,14 @@ static void case_end(void)
 	vs_set_budget(budget);
 	vs_set_schedule(sched);
 	evloop = NULL; g_nctx = g_live = g_returned = 0;
+	wk_n = tm_n = 0; ndead = 0; naside = 0; loop_deleted = 0;
 	memset(freed, 0, sizeof(freed));
 	for (int i = 0; i < MAXCTX; i++) { peers[i] = -1; ctxs[i] = NULL; }
 	for (int i = 0; i < 8; i++) { bare_ctx[i] = NULL; bare_peer[i] = -1; }
 	vs_spawn(thread_body, (void *)(intptr_t)0);
 	int st = vs_run();
 	int late = 0;
-	if (st == 0 && evloop && !bare) {
+	if (st == 0 && evloop && !bare && !loop_deleted) {
 		/* owner clean-up after run() has returned and every thread has finished: contexts
 		 * handed over too late to be seen by the exit callback are still queued */
 		while (muggle_queue_size(handle.ctx_queue) > 0) {
@@ -275,15 +373,17 @@ static void case_end(void)
 		_exit(77);
 	}
 	for (int i = 0; i < MAXCTX; i++) if (peers[i] >= 0) close(peers[i]);
+	for (int i = 0; i < naside; i++) free(aside[i]);
+	naside = 0;
 	for (int i = 0; i < 8; i++) {
 		if (bare_ctx[i]) { muggle_ev_ctx_close(bare_ctx[i]); free(bare_ctx[i]); bare_ctx[i] = NULL; }
 		if (bare_peer[i] >= 0) { close(bare_peer[i]); bare_peer[i] = -1; }
 	}
-	if (evloop) {
+	if (evloop && !loop_deleted) {
 		if (!bare) muggle_socket_evloop_handle_destroy(&handle);
 		muggle_evloop_delete(evloop);
-		evloop = NULL;
 	}
+	evloop = NULL;
 	vs_io_reset();
 }
 
